@@ -153,7 +153,12 @@ def cmdP (arg : Str) : String :=
       | [f] => cliArgOf f []
       | f :: v => cliArgOf f (("=".toList).intercalate v)
       | [] => none)
-    let o := globalOptions dflt (iniChanges ini) args
+    -- `strict = <true>` in [mypy] / `--strict` on the command line
+    let iniStrict := (splitNE ',' ini).any (fun kv =>
+      let p := parseKV kv
+      resolveKey genTemplate p.1 == .strict && parseBool p.2 == some true)
+    let cliStrict := (splitNE ' ' cli).contains "--strict".toList
+    let o := globalOptionsStrict dflt strictAssign iniStrict (iniChanges ini) cliStrict args
     showOpts (splitNE ',' keys) (splitNE ',' codes) { o with imiPerModule := false }
   | _ => "bad-op"
 
@@ -169,6 +174,8 @@ def cmdF : String :=
        (Gen.Options.tomlKeys.filter (fun k => !Gen.Options.iniKeys.contains k))).map (fun k => str k.1)),
     bad "per_module_flags_inline_ok" ((Gen.Options.perModule.filter (fun k => !perModuleSettable genTemplate k)).map str),
     bad "strict_flags_ok" ((Gen.Options.strictFlags.filter (fun d => !strictAssignmentOk genTemplate d)).map (fun d => str d.1)),
+    bad "strict_opposites_expressible" ((Gen.Options.strictFlags.filter (fun d =>
+      !(strictOppositeOk genTemplate d && strictOppositeOk tomlTemplate d))).map (fun d => str d.1)),
     bad "list_options_typed" ((Gen.Options.attrs.filter (fun a =>
       !(listAttrTyped Gen.Options.iniKeys a && listAttrTyped Gen.Options.tomlKeys a))).map (fun a => str a.name)),
     bad "exemptions_live" (if exemptionsLiveB then [] else ["stale"])]
